@@ -19,12 +19,17 @@ for e in $ENGINES; do
     i=$((i+1)); [ $((i % 15)) = 0 ] && wait
   done
   wait
-  n=$(cat "$S"/fp.$e.* | sort -u | wc -l)
-  if [ "$n" != "$COUNT" ]; then
-    echo "NONDETERMINISM engine=$e: $n distinct lines for $COUNT runs across $PROCS processes"; rc=2
+  # same binary: every run must have one fingerprint.  Across binaries runs may differ only where the plain
+  # binary reports a violation (the -race binary does not evaluate oracles that read server memory or build
+  # reference servers, so such a run continues where the plain one stops).
+  np=$(ls "$S"/fp.$e.* | while read f; do n=${f##*.}; [ $((n % 5)) != 0 ] && cat $f; done | sort -u | wc -l)
+  nr=$(ls "$S"/fp.$e.* | while read f; do n=${f##*.}; [ $((n % 5)) = 0 ] && cat $f; done | sort -u | wc -l)
+  nx=$(cat "$S"/fp.$e.* | grep ' \[\]$' | sort -u | awk '{print $1}' | sort | uniq -d | wc -l)
+  if [ "$np" != "$COUNT" ] || [ "$nr" != "$COUNT" ] || [ "$nx" != 0 ]; then
+    echo "NONDETERMINISM engine=$e: plain binary $np, -race binary $nr distinct lines for $COUNT runs; $nx violation-free runs differ between the binaries"; rc=2
     cat "$S"/fp.$e.* | sort | uniq -c | awk '$1 != '"$PROCS"'' | head -10
   else
-    echo "deterministic: engine=$e $COUNT runs x $PROCS processes (GOMAXPROCS 1/4/16, forward/reverse, 1 in 5 under -race) -> identical fingerprints"
+    echo "deterministic: engine=$e $COUNT runs x $PROCS processes (GOMAXPROCS 1/4/16, forward/reverse, 1 in 5 under -race) -> identical fingerprints per binary; violation-free runs identical across binaries"
   fi
 done
 exit $rc
